@@ -378,8 +378,12 @@ def for_in(
         sequences.
     """
 
-    mapped: Iterable[Observable[_T2]] = map(mapper, values)
-    return concat_with_iterable(mapped)
+    def factory(_: abc.SchedulerBase) -> Observable[_T2]:
+        # Map the values afresh for every subscription
+        mapped: Iterable[Observable[_T2]] = map(mapper, values)
+        return concat_with_iterable(mapped)
+
+    return defer(factory)
 
 
 @overload
